@@ -503,6 +503,10 @@ func runGen(class string, seed int64, n int, w *bufio.Writer) {
 		g.genWF(n)
 	case "render":
 		g.genRender(n)
+	case "short":
+		g.genShort(n)
+	case "comps":
+		g.genCompositions(n)
 	default:
 		panic("unknown class " + class)
 	}
